@@ -38,7 +38,7 @@ ASSUMPTIONS = [
     "parameter-validation errors are not generated",
 ]
 
-ASYNC_CLOSEABLE = ("agen", "aclass", "aplain", "agenlike", "aproxy", "areiter")
+ASYNC_CLOSEABLE = ("agen", "aclass", "aplain", "agenlike", "aproxy", "areiter", "alateclose")
 ALL = [t for t in ITER_TOOLS if t != "tee"] + AGG_TOOLS
 
 
@@ -49,7 +49,7 @@ def cases(draw, name, tier, many=False):
     if name != "iter_sentinel":
         for s in case["srcs"]:
             s["fl"] = draw(st.sampled_from(["agen", "agen", "aclass", "aplain", "aclass_noclose", "agenlike",
-                                             "aproxy", "areiter"]))
+                                             "aproxy", "areiter", "alateclose"]))
             s["eqsrc"] = draw(st.integers(0, 3)) == 0
             s["csusp"] = draw(st.booleans())
             s["cret"] = draw(st.sampled_from([None, None, True, "closed"]))
@@ -60,6 +60,8 @@ def cases(draw, name, tier, many=False):
         spec["fl"] = draw(st.sampled_from(["def", "async"]))
     case["mode"] = draw(st.sampled_from(["hooks", "bare"]))
     case["exc"] = draw(st.sampled_from(EXC_NAMES))  # the type of the injected single faults
+    # after the iterator ended or failed the consumer asks once more (and is told "finished") before closing it
+    case["repoll"] = draw(st.booleans())
     return case
 
 
@@ -93,6 +95,15 @@ async def scenario(b, case):
         else:
             ctx.ev("yield", 0, sig(value))
             del value
+    if case.get("repoll") and b.advanced and ctx.log and ctx.log[-1][0] in ("stop", "raise"):
+        try:
+            await out.__anext__()
+        except StopAsyncIteration:
+            pass
+        except BaseException as exc:  # noqa: B902
+            ctx.ev("raise-on-repoll", 0, type(exc).__name__, planned_name(ctx, exc))
+        else:
+            ctx.ev("yield-on-repoll", 0)
     if action == "throw" and hasattr(out, "athrow"):
         thrown = make_exc("Fault", "consumer-throw")
         ctx.planned["consumer"] = thrown
